@@ -1351,7 +1351,7 @@ func (t *fnTr) externCall(pn *types.PkgName, f *ast.SelectorExpr, e *ast.CallExp
 // externModelled lists the functions of imported packages that have a
 // hand-written total model (CodeGen/StrsGoBase.v); every other call of an
 // imported function makes the caller Unsupported.
-var externModelled = map[string]bool{}
+var externModelled = map[string]bool{"unicode_ToLower": true, "strings_TrimLeft": true}
 
 // describe names a syntax node for an "unsupported" reason.
 func describe(n ast.Node) string {
